@@ -95,10 +95,10 @@ def selftest(ctx, vecs):
     vf, of = ctx.path("self7.ndjson"), ctx.path("self7_out.ndjson")
     open(vf, "w").write("".join(json.dumps(x) + "\n" for x in (base, m1, m2, m3)))
     sc.run_driver(ctx, "reply", [of, vf])
-    got = verif.read_ndjson(of)
-    if any(m["vector"] == base for m in got) and not ctx.violations:
+    lines = {m["line"] for m in verif.read_ndjson(of)}
+    if 1 in lines and not ctx.violations:
         raise verif.Undecided("binding self-test: the unchanged vector was rejected")
-    n = len([m for m in got if m["vector"] != base])
-    if n != 3:
-        raise verif.Undecided("binding self-test: %d of 3 corrupted expectations were rejected" % n)
-    return n
+    missed = [l for l in (2, 3, 4) if l not in lines]
+    if missed:
+        raise verif.Undecided("binding self-test: corrupted expectations ACCEPTED (lines %s)" % missed)
+    return 3
